@@ -40,9 +40,11 @@ EXPLANATION = (
     'R6: a placeholder that Dependency.get_version() returns for a missing version never satisfies a constraint in DependencyFallbacksHolder._check_version, and '
     'ExternalDependency._check_version compares versions only when self.version is non-empty. '
     'R7: every read of a [provide] table (provided_deps, wrapdb_provided_deps) in Resolver uses a lower-cased key or a key of the table itself. '
+    'R8: on every path of Interpreter.func_dependency that reaches lookup(), the value of the `fallback` keyword was handed to set_fallback() or is known to be None. '
     'R4: apply_patch/apply_diff_files run only in _resolve inside a try whose handlers remove self.dirname and re-raise; every return of _resolve is '
     'gated by has_buildfile(). NOT decided: outcomes of run-time lookups (system state, subproject configuration), the cross product of the policy table as behaviour, '
-    'that sha256/urlopen behave as documented, KeyboardInterrupt during patching, that an override is found by a dependency() call that names another method/modules/components (these keywords are part of the identifier by upstream design; confirmed by probe, not armed), a guard of _get_cached_dep spelled with another attribute than the reference knows (ends Undecided), override_dependency() in interpreter/mesonmain.py, '
+    'that sha256/urlopen behave as documented, KeyboardInterrupt during patching, how the text of a [provide] value is cut into names (per-item strip()/lower() in PackageDefinition.parse_provide_section is string processing on run-time values), '
+    'that an override is found by a dependency() call that names another method/modules/components (these keywords are part of the identifier by upstream design; confirmed by probe, not armed), a guard of _get_cached_dep spelled with another attribute than the reference knows (ends Undecided), override_dependency() in interpreter/mesonmain.py, '
     'a failure of the acquisition step itself (a failing shutil.unpack_archive in _get_file / clone in _get_git leaves a partly populated directory that a later run accepts when the build file was already unpacked: outside the clause "a failed patch/diff step", printed as an information note by R4, witness in the note), '
     '`meson subprojects update/packagefiles` (msubprojects.py re-applies patches outside the cleanup).')
 ASSUMPTIONS = ['Dependency objects are truthy; NotFoundDependency.found() is False',
@@ -1543,6 +1545,13 @@ def r4(ctx: RuleCtx) -> None:
         """True: build-file test; False: something else; None: cannot tell"""
         if call_method(c) in EXISTS:
             subj = c.args[0] if c.args else (c.func.value if isinstance(c.func, ast.Attribute) else c)
+            for _ in range(3):                  # a path computed once into a local
+                if isinstance(subj, ast.Name):
+                    defs = _assigned(fn, subj.id)
+                    if len(defs) == 1 and defs[0] is not None:
+                        subj = defs[0]
+                        continue
+                break
             if isinstance(subj, ast.Call) and len(subj.args) == 1 and not subj.keywords:
                 subj = subj.args[0]             # Path(x) / str(x)
             # a file *under* the directory, not the directory itself
@@ -1864,6 +1873,57 @@ def r7(ctx: RuleCtx) -> None:
     ctx.floor('reads of the [provide] tables', n_reads, 1)
 
 
+# ---------------------------------------------------------------------------------------------
+# R8  the `fallback` keyword reaches set_fallback() for every value but None
+
+def r8(ctx: RuleCtx) -> None:
+    import re
+    imod = ctx.repo.module(INTERP)
+    fmod = ctx.repo.module(DF)
+    # set_fallback(None) is the only no-op: its first decision
+    sf = _fn(fmod, f'{H}.set_fallback')
+    noop = [sp for sp in sympaths(sf) if dict((a, v) for a, v, _ in sp.conds()).get(Atom('is', ('ARG1', 'None'))) is True]
+    if not noop or any(sp.path.outcome != 'return' or [st for st, _ in sp.stmts() if not isinstance(st, ast.Return)] for sp in noop):
+        raise Undecided('set_fallback: `fbinfo is None -> return` not found as its first decision')
+    fd = imod.func('Interpreter.func_dependency')
+    FB = re.compile(r"^ARG\d+(\['fallback'\]|\.get\('fallback'(, None)?\))$")
+
+    def holder(e: ast.AST) -> bool:
+        return isinstance(e, ast.Call) and call_method(e) == H
+    n_paths = 0
+    seen: T.Set[str] = set()
+    for sp in sympaths(fd):
+        calls = sp.calls()
+        look = [(o, sc, i) for o, sc, i in calls if call_method(o) == 'lookup' and isinstance(sc.func, ast.Attribute) and holder(sc.func.value)]
+        if not look:
+            continue
+        n_paths += 1
+        at = look[0][2]
+        recv = norm(look[0][1].func.value)  # type: ignore[attr-defined]
+        passed = [sc for o, sc, i in calls if i <= at and call_method(o) == 'set_fallback' and isinstance(sc.func, ast.Attribute) and norm(sc.func.value) == recv
+                  and len(sc.args) == 1 and FB.match(norm(sc.args[0]))]
+        about = [(a, v) for a, v, i in sp.conds() if i <= at and re.search(r"ARG\d+(\['fallback'\]|\.get\('fallback')", repr(a))]
+        is_none = any(a.kind == 'is' and a.args[1] == 'None' and FB.match(a.args[0]) and v for a, v in about)
+        if passed or is_none:
+            verdict, why = True, 'set_fallback(kwargs[fallback]) before lookup()' if passed else 'fallback is None (set_fallback would do nothing)'
+        else:
+            unread = [short(o, 60) for o, sc, i in calls if i <= at and call_method(o) not in ('lookup', H) and
+                      any(norm(x) == recv or FB.match(norm(x)) for x in list(sc.args) + [k.value for k in sc.keywords])]
+            odd = [repr(a) for a, v in about if not ((a.kind == 'truth' and FB.match(a.args[0])) or (a.kind == 'is' and FB.match(a.args[0])))]
+            if unread or odd:
+                raise Undecided(f'func_dependency: fallback does not visibly reach set_fallback on `{short(sp.path.describe(), 120)}`, but {unread + odd} is not read')
+            verdict, why = False, ''
+        key = f'{verdict}|{why}|{sorted(map(repr, about))}'
+        if key in seen:
+            continue
+        seen.add(key)
+        ctx.require(verdict, f'func_dependency: {why}', imod, 'Interpreter.func_dependency', f'lookup() reached with {sorted(repr(a) + "=" + str(v) for a, v in about)} and no set_fallback',
+                    f'on the path `{short(sp.path.describe(), 160)}` lookup() is reached although the value of the `fallback` keyword was not handed to set_fallback() and is not known '
+                    'to be None: `fallback: []` (documented as allow_fallback: false) is then ignored and a wrap [provide] entry is used as implicit fallback', look[0][0])
+    if n_paths == 0:
+        raise Undecided(f'func_dependency: no path reaches {H}.lookup()')
+
+
 # A rule reads one or two modules; when their content is the one an earlier run in this process already judged (the
 # refactoring sweep analyses 300 overlays, most of which do not touch them) the recorded obligations are replayed.
 _DONE: T.Dict[T.Any, T.Tuple[T.List[T.Tuple[str, tuple, dict]], T.Optional[BaseException]]] = {}
@@ -1915,6 +1975,7 @@ r2a, r2b, r2c, r2d, r3, r4 = (_replayable(f, WRAP) for f in (r2a, r2b, r2c, r2d,
 r5 = _replayable(r5, DETECT, INTERP, DF)
 r6 = _replayable(r6, DBASE, DF)
 r7 = _replayable(r7, WRAP)
+r8 = _replayable(r8, INTERP, DF)
 
 RULES = [
     Rule('C10.R1a', 'candidate order and guards (_get_candidates)', r1a),
@@ -1931,6 +1992,7 @@ RULES = [
     Rule('C10.R3', 'check_can_download() precedes every network primitive reachable from resolve()', r3),
     Rule('C10.R5', 'keyword arguments applied after / rewritten during the lookup are not part of the dependency identifier', r5),
     Rule('C10.R6', 'a placeholder for a missing version never satisfies a version constraint on the cached path', r6),
+    Rule('C10.R8', 'the fallback keyword reaches set_fallback() for every value but None', r8),
     Rule('C10.R7', 'the [provide] tables are read with lower-cased keys', r7),
     Rule('C10.R4', 'patch/diff failure removes the directory and re-raises; returns gated by has_buildfile()', r4),
 ]
